@@ -26,6 +26,7 @@ RULE = ("random sequences x layouts (header or not and where, line length 1..80,
         "real parser; distinct = distinct file content; non-trivial = content whose model outcome is specified "
         "(a residue string or an error)")
 RULE += ("; added after the mutation rounds: file names with blanks / non-ASCII letters, relative and pathlib paths; stray non-UTF-8 bytes inside sequence lines; a re-used parser object and the front-end constructor on every fifth variant (also rejected ones); a second object built from the same file after the first was modified; the first cases of every shard are judged again at its end")
+RULE += ("; round 7: residue lines that begin with record keywords of other formats (SQ, ID, AC, SEQRES, ...); files of 70,000 (thorough 300,000) residues as one line and wrapped")
 EXHAUSTIVE = {"quick": False, "thorough": False}
 ASSUMPTIONS = [
     "line breaks are LF, CRLF or CR; a header is a line whose first character is '>'",
@@ -34,7 +35,7 @@ ASSUMPTIONS = [
     "header lines contain ASCII only (the parser opens files in the locale's encoding)",
 ]
 REQUIRED = {"all": ["layouts", "clean_parsed", "corruptions_rejected", "corruptions_still_valid", "second_header_cases",
-                    "star_cases", "same_size_overwrites", "object_battery_compared", "crlf_layouts", "numbered_layouts", "second_file_object_checked", "pathlib_paths", "relative_paths", "raw_byte_corruptions", "reused_parser_and_frontend_parses"]}
+                    "star_cases", "same_size_overwrites", "object_battery_compared", "crlf_layouts", "numbered_layouts", "second_file_object_checked", "pathlib_paths", "relative_paths", "raw_byte_corruptions", "reused_parser_and_frontend_parses", "lines_starting_with_record_keywords", "files_beyond_64kB"]}
 NLAYOUT = {"quick": 600, "thorough": 6000}
 NCORR = {"quick": 30, "thorough": 60}
 PANEL = list("*>#-_.,;:!?@$%&/\\|()[]{}<=+~^'\"`") + list("BJOUXZbjouxz") + list("aceg") + ["\t", "\x0c", "\x00", "\x7f", "\n",
@@ -193,6 +194,10 @@ def cases(tier, seed):
         yield {"s": w, "o": rng.randrange(1 << 30)}
     for i in range(NLAYOUT[tier]):
         yield {"s": gen.rand_seq(rng, hi=300 if i % 5 == 0 else 90), "o": rng.randrange(1 << 30)}
+    # residue lines that begin with what other record formats use as line keywords (all of them valid residue letters)
+    yield {"plain": "keywords", "o": rng.randrange(1 << 30)}
+    # files well beyond 64 kB, as one line and wrapped (parser only: building an object of that length is another story)
+    yield {"plain": "large", "o": rng.randrange(1 << 30), "n": 70000 if tier == "quick" else 300000}
 
 
 def path_form(path, rng, rep):
@@ -231,7 +236,59 @@ RAW_BYTES = [b"\xe9", b"\xff", b"\xa0", b"\xc3", b"\x86", b"\xe2\x82", b"\xfe\xf
 _long_lived = {}
 
 
+LINE_KEYWORDS = ["SQ", "ID", "AC", "DE", "KW", "FT", "CC", "DR", "RN", "RA", "RT", "RL", "GN", "END", "TER", "SEQRES", "HEADER", "TITLE",
+                 "REMARK", "SEQ", "LENGTH", "NAME", "DATE", "CDS"]
+
+
+def judge_plain(case, rep, S):
+    rng = gen.sub_rng(case["o"], ID, "plain")
+    P = S["parsermod"].SequenceFileParser
+    path = os.path.join(_dir["path"], "plain_%s.txt" % case["plain"])
+    if case["plain"] == "keywords":
+        for kw in LINE_KEYWORDS:
+            for width in (len(kw), len(kw) + 1, 10, 60):
+                body = [kw + "".join(rng.choice(M.AA) for _ in range(width - len(kw))) for _ in range(rng.randint(2, 5))]
+                for header in ("", ">sp|P1|TEST\n"):
+                    for sep in (" ", "   "):
+                        lines = body if rng.random() < 0.5 else [kw + sep + l[len(kw):] if len(l) > len(kw) else l for l in body]
+                        want = "".join("".join(l.split()) for l in lines)
+                        write(path, header + "\n".join(lines) + "\n")
+                        try:
+                            got = P().parseSeqFile(path)
+                        except Exception as e:
+                            got = ERR
+                        rep.cnt("lines_starting_with_record_keywords")
+                        if got != want:
+                            rep.viol("parse_outcome", "residue lines that begin with %r (file %r): parser gave %s, the residues are %r" % (
+                                kw, (header + "\n".join(lines))[:200], "an error" if got == ERR else repr(got[:80]), want[:80]),
+                                sig={"want_error": False, "got_error": got == ERR, "char": kw, "kind": "keyword_line_start"})
+                            return
+        return
+    n = case["n"]
+    seq = "".join(rng.choice(M.AA) for _ in range(n))
+    for width in (60, n, 10, 997):
+        text = ">big\n" + "\n".join(seq[i:i + width] for i in range(0, n, width)) + "\n"
+        write(path, text)
+        try:
+            got = P().parseSeqFile(path)
+        except Exception:
+            got = ERR
+        rep.cnt("files_beyond_64kB")
+        if got != seq:
+            rep.viol("parse_outcome", "a %d-residue file wrapped at %d: parser gave %s" % (
+                n, width, "an error" if got == ERR else "%d residues (first difference at %d)" % (
+                    len(got), next((k for k, (a, b) in enumerate(zip(got, seq)) if a != b), min(len(got), len(seq))))),
+                sig={"want_error": False, "got_error": got == ERR, "char": None, "kind": "large_file"})
+            break
+    try:
+        os.remove(path)
+    except OSError:
+        pass
+
+
 def judge(case, rep, S):
+    if case.get("plain"):
+        return judge_plain(case, rep, S)
     seq = case["s"]
     rng = gen.sub_rng(case["o"], ID)
     text, info = build_layout(rng, seq)
